@@ -39,10 +39,10 @@ PROPS = {
         'assumptions': COMMON_ASSUME + ['OS-level behaviour appears only as: the source returned an error after k bytes / the destination accepted k bytes'],
     },
     'C09': {
-        'props': ['theories/Props/C09.v'], 'deps': READER_DEPS,
+        'props': ['theories/Props/C09.v'], 'deps': READER_DEPS + ['theories/Theory/ReaderTotal.v', 'theories/Theory/ScanSpec.v'],
         'streams': ['l5-props', 'l4-reader'],
         'trusted_base': READER_TB,
-        'assumptions': COMMON_ASSUME + ['chunk and separator independence: no theorem yet; decided on the implementation by stream l5-props (every sample x chunk sizes x separators) and by model/implementation agreement under all chunkings in l4-reader'],
+        'assumptions': COMMON_ASSUME + ['separator independence (none / LF / CRLF between segments) has no theorem: decided on the implementation by stream l5-props (every sample x separators) and by model/implementation agreement in l4-reader; chunk independence and order independence are theorems'],
     },
     'C02': {
         'props': ['theories/Props/C02.v'], 'deps': READER_DEPS + CODEC_DEPS + ['theories/Theory/WriterFacts.v', 'theories/Model/Writer.v', 'gen/Writer.v'],
